@@ -20,11 +20,11 @@ RULE = ("period {1,2.5,10,3600(jump)} x duration profile {constant, growing, shr
 ASSUMPTIONS = ["Redis and RabbitMQ are wire-level fakes", "virtual time", "cron schedules not reachable (croniter absent)",
                "scheduled time of an iteration = the next_execution_time its message carried (for the first: deferred_until or timestamp+period)"]
 EVAL_COUNTER = "iterations_judged"
-REQUIRED = ["iterations_judged", "profile_shrinking", "profile_longer", "outcome_retry", "outcome_exhausted", "first_run_deferred_until"]
+REQUIRED = ["iterations_judged", "profile_shrinking", "profile_longer", "outcome_retry", "outcome_exhausted", "outcome_eager_exhausted", "first_run_deferred_until"]
 CASE_TIMEOUT = 150
 
 PROFILES = ["constant", "growing", "shrinking", "sawtooth", "longer"]
-OUTCOMES = ["ok", "retry", "exhausted", "mixed"]
+OUTCOMES = ["ok", "retry", "exhausted", "mixed", "eager_exhausted"]
 
 
 def gen_cases(tier, seed):
@@ -87,12 +87,16 @@ async def scenario(loop, case, out, stats, fps, samples):
         by_iter = []
         kinds_seen = set()
         for i in range(n + 3):
-            o = oc if oc != "mixed" else rnd.choice(["ok", "retry", "exhausted"])
+            o = oc if oc != "mixed" else rnd.choice(["ok", "retry", "exhausted", "eager_exhausted"])
             kinds_seen.add(o)
             if o == "ok":
                 steps = [{"do": "ok", "d": ds[i]}]
             elif o == "retry":
                 steps = [{"do": "raise", "d": ds[i]}, {"do": "ok", "d": 0.01}]
+            elif o == "eager_exhausted":
+                # the actor asks for retries itself until none is left (the last request is refused: an ordinary failure)
+                er = {"do": "eager", "action": "retry", "pre": [], "next": 0.05 * p}
+                steps = [dict(er, d=ds[i]), dict(er, d=0.01), dict(er, d=0.01)]
             else:
                 steps = [{"do": "raise", "d": ds[i]}, {"do": "raise", "d": 0.01}, {"do": "raise", "d": 0.01}]
             by_iter.append({"by_attempt": steps})
